@@ -35,6 +35,7 @@ import networkx
 import numpy
 
 from harness import gen, histories, impl
+from harness.lanes import c08_nxgml
 from harness.core import LaneBase, hx, hxedges, hxlist
 from harness.impl import CausalGraph, EdgeType, TimeSeriesCausalGraph
 from harness.lanes.c05 import enc_graph, etext
@@ -433,8 +434,10 @@ class Lane(LaneBase):
             'or is a malformed input; distinct by the hash of the protocol lines.')
     TRUSTED = ['networkx.to_numpy_array: node order = g.nodes(), entry 1 per edge, both entries for an undirected edge '
                '(measured on every networkx value the lane sees: `mx nx_numpy`)',
-               'networkx.generate_gml / parse_gml are mutually inverse on node labels and edges (measured on the name '
-               'pool; the labels "()" and "[]" are read back as an empty tuple / list and are excluded)',
+               'networkx.generate_gml / parse_gml: transcribed and PROVED mutually inverse on node labels and edges, node and '
+               'edge order included (CG.C08Gml, 17 audited theorems; the labels "()" and "[]" are exactly the ones read back '
+               'as an empty tuple / refused); trusted: that the transcribed lines are what networkx 3.2.1 runs (the text the '
+               'code hands out and what parse_gml reads in it are compared with the transcription on every export)',
                'numpy: shape, array_equal(a, a.astype(bool)), indexing, numpy.where',
                'str(int) for integer node names; edge weights other than 1 in a networkx graph are outside the model',
                'get_minimal_graph() itself is modelled elsewhere (CG/Model/TS.lean): here the lagged matrices are compared '
@@ -451,8 +454,11 @@ class Lane(LaneBase):
                'types / metadata of the minimal graph and the stored orientation of `--` are not carried by the matrices. '
                'Domain = canonical names (C12 domain), consistent templates, only -> / --, undirected edges contemporaneous, '
                '>= 1 edge; outside it only correspondence (`lag from_min`, `lag rt`) is checked',
-               'GML: the text layer (generate_gml / parse_gml) is not modelled; fromGml_toGml is the networkx round trip on '
-               'the abstract value',
+               'GML: fromGml_toGml is the round trip on the abstract networkx value; the TEXT layer is a separate, full result: '
+               'generate_gml / parse_gml / escape / unescape are transcribed (CG.NxGml) and parse (generate G) = G is proved for '
+               'every (di)graph with duplicate-free string labels other than `[]` (`()` comes back as the empty tuple; '
+               'CG.C08Gml.parse_generate, survives_iff: exactly these two labels do not survive) -- a node named `()` or `[]` '
+               'therefore cannot make the library round trip (observation, with networkx as the cause)',
                'round-trip theorems (fromAdj_toNumpy, fromNetworkx_toNetworkx, …) conclude MatrixImage: same names, same '
                'directed edges, same unordered undirected pairs, nothing else; variable types, metadata and the stored '
                'orientation of undirected edges are not carried by a matrix (stated in the structure)']
@@ -607,6 +613,21 @@ class Lane(LaneBase):
             except Exception as e:  # noqa: BLE001
                 txt, r = None, 'err ' + type(e).__name__
             if txt is not None:
+                # the TEXT the code hands out against the transcription of networkx.generate_gml (CG.NxGml, proved to be read
+                # back by the transcription of parse_gml: CG.C08Gml.parse_generate) run on the code's own export, and what
+                # the real parse_gml reads in it against the transcription of parse_gml
+                try:
+                    nxg = g.to_networkx()
+                    gl = c08_nxgml.nxgml_lines('gen', nxg.is_directed(), [str(n) for n in nxg.nodes],
+                                               [(str(a), str(b)) for a, b in nxg.edges])
+                    lines.append(gl[0][0])
+                    out.append(hx(txt))
+                    for ln, exp in c08_nxgml.nxgml_lines('parse', txt):
+                        lines.append(ln)
+                        out.append(exp)
+                    tags.add('gml-text-tied')
+                except ValueError:
+                    pass
                 if set(names) & KNOWN_GML_MANGLED:
                     tags.add('gml:excluded-name')
                     return x
